@@ -10,6 +10,7 @@ package tmmirror_test
 // same disk, redelivers the interrupted op's messages and continues.
 
 import (
+	"os"
 	"context"
 	"fmt"
 	"math/big"
@@ -357,6 +358,27 @@ func (s *sim) diskRestartTrigger(d diskSnapshot) string {
 		ok, _ := checkSigs(set, 1, d.ch, d.cr, hash, sigs)
 		per[hash] = powerOf(set, ok)
 	}
+	if committed == "" {
+		// the header of the committing height is not on record (the process stopped before it was
+		// written): the kernel picks the block with the largest precommit power; only a tie is the finding
+		var best *big.Int
+		ties := 0
+		for hash, p := range per {
+			if hash == "" {
+				continue
+			}
+			switch {
+			case best == nil || p.Cmp(best) > 0:
+				best, ties = p, 1
+			case p.Cmp(best) == 0:
+				ties++
+			}
+		}
+		if ties > 1 {
+			return "C09-A27"
+		}
+		return ""
+	}
 	cp := per[committed]
 	for hash, p := range per {
 		if hash != committed && (cp == nil || p.Cmp(cp) >= 0) {
@@ -467,6 +489,12 @@ func c10CrashRun(t *testing.T, c simCase, ref *c10Ref, k, w int) (out c10Outcome
 		}
 		if s.stopped() || !s.alive {
 			return
+		}
+		if traceOn {
+			for i, in := range s.incs {
+				fmt.Fprintf(os.Stderr, "TRACE crash(k=%d,w=%d) incarnation %d writes %v\n", k, w, i, in.writes)
+			}
+			fmt.Fprintf(os.Stderr, "TRACE ref.chain=%d heights, ws=%v\n", len(ref.chain), ws)
 		}
 		// same committed chain and voting position as the crash-free run
 		for h, hash := range ref.chain {
